@@ -242,6 +242,10 @@ Loop:
 
 		case "F>": // Prompt (end of proposal block)
 			// Verify checksum
+			if len(line) < 4 {
+				err = errors.New("Malformed end of proposal block (missing checksum)")
+				return
+			}
 			ourChecksum = (-ourChecksum) & 0xff
 			their, _ := strconv.ParseInt(line[3:], 16, 64)
 			if their != ourChecksum {
